@@ -134,6 +134,45 @@ def gen(tier, seed):
     for k, sh in enumerate([('struct', [('named', ['i', 'm', 'i'])]), ('struct', [('tuple', ['m', 'i'])]), ('enum', [('tuple', ['i', 'm']), ('named', ['m', 'i', 'i']), ('unit', [])])]):
         mods.append(emit(f'm{n:04d}', f'{S.shape_id(sh)}/peq=0/single fed field with a method', sh, False))
         n += 1
+    # wide shapes (13 fields: positions >= 10 sort before 2 as strings; names not alphabetical): a hasher that keeps the u8 writes in order
+    wide_h = '''pub struct WideH { pub b: [u8; 16], pub n: usize }
+impl core::hash::Hasher for WideH {
+    fn finish(&self) -> u64 { 0 }
+    fn write(&mut self, _bytes: &[u8]) {}
+    fn write_u8(&mut self, v: u8) { if self.n < 16 { self.b[self.n] = v; } self.n += 1; }
+    fn write_isize(&mut self, _v: isize) {}
+    fn write_usize(&mut self, _v: usize) {}
+    fn write_u64(&mut self, _v: u64) {}
+    fn write_i64(&mut self, _v: i64) {}
+    fn write_u32(&mut self, _v: u32) {}
+}
+'''
+    for shape in ('tuple', 'named', 'variant'):
+        names = S.FNAMES[:S.WIDE]
+        ign = [i % 2 == 1 for i in range(S.WIDE)] if shape == 'variant' else [False] * S.WIDE
+        if shape == 'tuple':
+            decl = '#[derive(Educe)]\n#[educe(Hash)]\npub struct Ty(' + ', '.join('pub u8' for _ in names) + ');\n'
+            mk = 'Ty(' + ', '.join(f'v[{i}]' for i in range(S.WIDE)) + ')'
+        elif shape == 'named':
+            decl = '#[derive(Educe)]\n#[educe(Hash)]\npub struct Ty { ' + ', '.join(f'pub {nm}: u8' for nm in names) + ' }\n'
+            mk = 'Ty { ' + ', '.join(f'{nm}: v[{i}]' for i, nm in enumerate(names)) + ' }'
+        else:
+            decl = '#[derive(Educe)]\n#[educe(Hash)]\npub enum Ty { Alpha, Beta(' + ', '.join(('#[educe(Hash(ignore))] ' if ign[i] else '') + 'u8' for i in range(S.WIDE)) + ') }\n'
+            mk = 'Ty::Beta(' + ', '.join(f'v[{i}]' for i in range(S.WIDE)) + ')'
+        fed = [i for i in range(S.WIDE) if not ign[i]]
+        h = Harness('h_wide', unwind=4, covers=['reached'])
+        checks = ''.join(f'    assert!(w.b[{k}] == v[{i}], "write #{k} is not field {i}");\n' for k, i in enumerate(fed))
+        body = wide_h + decl + h.attrs() + f'''pub fn h_wide() {{
+    let v: [u8; {S.WIDE}] = [{", ".join("kani::any()" for _ in range(S.WIDE))}];
+    let x = {mk};
+    let mut w = WideH {{ b: [0; 16], n: 0 }};
+    core::hash::Hash::hash(&x, &mut w);
+    kani::cover!(true, "reached");
+    assert!(w.n == {len(fed)}, "number of u8 writes differs from the number of fed fields");
+{checks}}}
+'''
+        mods.append(Module(f'm{n:04d}', f'13-field {shape}/wide: every fed field written once, in declaration order', body, [h], sample=dict(type_definition=decl), functions=FUNCTIONS))
+        n += 1
     from .model import Spelling
     for j in range(3):
         sh = [('struct', [('tuple', ['f', 'i', 'w'])]), ('enum', [('named', ['f', 'm']), ('tuple', ['i', 'f']), ('unit', [])]), ('struct', [('named', ['m', 'f'])])][j]
